@@ -882,10 +882,10 @@ def run(ctx: Ctx):
     # corpus first
     for name, payload in corpus_cases():
         replay(ctx, payload, from_corpus=name)
-    cases, lines, impl = history_stream(ctx, ctx.n(60, 1200))
+    cases, lines, impl = history_stream(ctx, ctx.n(150, 1200))
     compare_lines(ctx, "history", cases, lines, impl)
-    portable_stream(ctx, ctx.n(40, 600))
-    other_models_stream(ctx, ctx.n(4, 40))
+    portable_stream(ctx, ctx.n(80, 600))
+    other_models_stream(ctx, ctx.n(6, 40))
 
 
 def search(ctx: Ctx, seeds):
